@@ -39,6 +39,7 @@ func init() {
 		"vParam":     shimParam,
 		"vNow":       func(x *Exec, t *Thread, a []Value, c *callCtx) (Value, nativeStatus) { return x.mkTime(x.readClock()), nDone },
 		"vToken":     shimToken,
+		"vAdvanceClock": shimAdvanceClock,
 		"vNative":    func(x *Exec, t *Thread, a []Value, c *callCtx) (Value, nativeStatus) { return x.F.False, nDone },
 		"vWaitOthers": shimWaitOthers,
 		"vSettle":     shimSettle,
@@ -371,6 +372,18 @@ func shimSettle(x *Exec, t *Thread, a []Value, c *callCtx) (Value, nativeStatus)
 	}
 	x.block(t, "waiting for the other threads to settle", quiet)
 	return nil, nBlocked
+}
+
+// vAdvanceClock lets d nanoseconds pass (d >= 0 is assumed): later clock readings are at least d later.
+func shimAdvanceClock(x *Exec, t *Thread, a []Value, c *callCtx) (Value, nativeStatus) {
+	d := a[0].(*Term)
+	x.assume(x.F.Cmp(OpSle, x.F.BV(64, 0), d))
+	cur := x.clock
+	if cur == nil {
+		cur = x.readClock()
+	}
+	x.clock = x.F.Add(cur, d)
+	return nil, nDone
 }
 
 func shimSameCell(x *Exec, t *Thread, a []Value, c *callCtx) (Value, nativeStatus) {
